@@ -18,6 +18,7 @@ LEVEL_TEXT = (
     "that very array (in place, or its result returned) after its last store on every path to the return. The numerical "
     "solution of the sparse system and the finiteness of third-party statistics are not decided."
     ' (R5) argument checks of the filters and of the summary do not cut into the stated domain: a value guard separates at zero (no tolerance), a length guard accepts every stated length.'
+    " A helper that changes numpy's process-wide floating-point error mode restores it in a finally (or uses np.errstate)."
 )
 TECHNIQUE = "formula normal forms of constructor/return expressions + must-pass-through CFG query"
 
